@@ -8,6 +8,7 @@ from gen import hx
 MODEL_FILES = [
     "theories/Base/Prelude.v", "theories/Base/Crc.v", "theories/Spec/Frame.v",
     "theories/Model/Decode.v", "theories/Model/Encode.v", "theories/Model/Frontends.v",
+    "theories/Model/Parser.v", "theories/Model/Reader.v", "theories/Model/ArrayBuf.v", "theories/Digest.v",
 ]
 
 TRUSTED_BASE = [
